@@ -126,6 +126,21 @@ let seq_stream oc =
     emit_c09 oc ~stream:"c09-seq" [ M.NFor (None, bs "x", var "v", [ print (var "x"); text ";" ], None); text "." ] [ ("v", v) ])
     catalogue
 
+(* a set makes the assigned value visible to everything after it -- also when that value is null: the name is then
+   defined and null, whatever it was before (a variable of the render context, a loop variable, an earlier set) *)
+let null_stream oc =
+  let def x = print (M.ECond (M.ETest (var x, bs "defined", [], false), lit_str "d", lit_str "u")) in
+  let nul = M.ELit M.LNull in
+  let shows x = [ text "["; print (var x); text "|"; def x; text "|"; print (M.EFilter (var x, bs "default", [ lit_str "D" ])); text "]" ] in
+  List.iter (fun ctx ->
+    emit_c09 oc ~stream:"c09-null" ([ M.NSet (bs "x", nul) ] @ shows "x") ctx;
+    emit_c09 oc ~stream:"c09-null" (shows "x" @ [ M.NSet (bs "x", nul) ] @ shows "x" @ [ M.NSet (bs "x", lit_int 3) ] @ shows "x") ctx;
+    emit_c09 oc ~stream:"c09-null" ([ M.NSet (bs "x", lit_int 2); M.NSet (bs "x", nul) ] @ shows "x") ctx;
+    emit_c09 oc ~stream:"c09-null" ([ M.NFor (None, bs "x", M.EArr [ lit_int 1; nul; lit_int 3 ], shows "x" @ [ text ";" ], None) ] @ shows "x") ctx;
+    emit_c09 oc ~stream:"c09-null" ([ M.NFor (None, bs "i", M.EArr [ lit_int 1; lit_int 2 ], [ M.NIf ([ (M.EBin (M.BEq, var "i", lit_int 1), [ M.NSet (bs "x", nul) ]) ], Some [ M.NSet (bs "x", var "i") ]) ] @ shows "x", None) ]) ctx;
+    emit_c09 oc ~stream:"c09-null" ([ M.NIf ([ (var "x", [ text "T" ]) ], Some [ text "F" ]); M.NSet (bs "x", nul); M.NIf ([ (var "x", [ text "T" ]) ], Some [ text "F" ]) ]) ctx)
+    [ []; [ ("x", G.vint 5) ]; [ ("x", M.VNull) ]; [ ("x", G.vstr "s") ] ]
+
 let range_stream oc ~wide =
   let lo = if wide then -7 else -4 and hi = if wide then 7 else 4 in
   for a = lo to hi do
@@ -431,5 +446,6 @@ let run ~seed ~tier oc =
     truth_stream oc;
     lazy_stream oc;
     seq_stream oc;
+    null_stream oc;
     range_stream oc ~wide:thorough;
     prog_stream r oc (if thorough then 60000 else 2500)
